@@ -83,14 +83,14 @@ def run(ctx):
     ctx.assumptions += ['kernel contract of the Hermitian Krylov exponential (checked as C15)', 'mode-N bounds 1e-9',
                         'site indices / environment lists / outer dt are read from the caller frame of the wrapped helpers']
     sweep_models(ctx, ['tdvp1', 'tdvp2'])
-    cases = [ctx.replay['replay']['case']] if ctx.replay is not None else [gen_case(rng, ctx.quick) for _ in range(ctx.pick(400, 4000))]
+    cases = [ctx.replay['replay']['case']] if ctx.replay is not None else [gen_case(rng, ctx.quick) for _ in range(ctx.pick(400, 16000))]
     traces = pmap(record, cases)
     for c, tr in zip(cases, traces):
         ctx.count(c, nontrivial=c['maxD'] > 1 and c['L'] > 1)
     ctx.notes['local_problems_observed'] = sum(1 for tr in traces for r in tr if r['ev'] == 'local')
     for tr in traces[::max(1, len(traces) // 4)]:
         ctx.sample(tr[:6] + tr[-1:])
-    bad = validate_chunks(ctx, 'TraceSweep', 'tsw', traces, chunk=ctx.pick(20, 300), relax=sweepgen.relax)
+    bad = validate_chunks(ctx, 'TraceSweep', 'tsw', traces, chunk=ctx.pick(20, 500), relax=sweepgen.relax)
     for idx, why in sorted(bad.items())[:40]:
         clause = why[0][2] if why and len(why[0]) > 2 else 'rejected'
         ctx.violation(f'tdvp:{cases[idx]["alg"]}:{clause[:70]}', f'{cases[idx]}: record {why[0][0] if why else "?"}: {clause}', dict(case=cases[idx]))
